@@ -430,6 +430,7 @@ def replay_witnesses(ctx, T):
 def correspond(ctx):
     contract = load_contract()
     T = dtres.Tree()
+    ctx.extra['fingerprints'] = dtres.fingerprints(T, ['date', 'merged'])
     ctx.extra['contract_layouts'] = {c: len(v) for c, v in contract['layouts'].items()}
     unit_format(ctx, T)
     unit_generate_dates(ctx, T)
